@@ -17,7 +17,7 @@ SIZETS = {'u8': 'std::uint8_t', 'u16': 'std::uint16_t', 'u32': 'std::uint32_t',
 class Cfg(object):
     """One probe translation unit."""
 
-    def __init__(self, elem, n, m, alloc, std='c++17', ndebug=True, sizet='u64', defines=()):
+    def __init__(self, elem, n, m, alloc, std='c++17', ndebug=True, sizet='u64', defines=(), canary=False):
         self.elem = elem        # key of ELEMS
         self.n = n
         self.m = m
@@ -26,13 +26,14 @@ class Cfg(object):
         self.ndebug = ndebug
         self.sizet = sizet
         self.defines = tuple(defines)
+        self.canary = canary
 
     @property
     def name(self):
         a = 'std' if self.alloc == 'std' else 'PA%d.%s' % (self.alloc, self.sizet)
-        return '%s.N%d.M%d.%s.%s%s%s' % (self.elem, self.n, self.m, a, self.std,
-                                         '' if self.ndebug else '.assert',
-                                         ''.join('.' + d for d in self.defines))
+        return '%s%s.N%d.M%d.%s.%s%s%s' % ('canary.' if self.canary else '', self.elem, self.n, self.m, a, self.std,
+                                           '' if self.ndebug else '.assert',
+                                           ''.join('.' + d for d in self.defines))
 
     def alloc_bits(self):
         return None if self.alloc == 'std' else self.alloc
@@ -43,6 +44,9 @@ class Cfg(object):
             A = 'std::allocator<T>'
         else:
             A = 'svp::PA<T, %du, %s>' % (self.alloc, SIZETS[self.sizet])
+        if self.canary:
+            return ('#include "sv_canary.hpp"\nusing T = %s;\nusing A = %s;\n'
+                    'template struct svcanary::wrong<A, %d>;\n' % (T, A, self.n))
         return ('#include "sv_driver.hpp"\n'
                 'using T = %s;\nusing A = %s;\n'
                 'template void svp::drive<T, %d, %d, A> (gch::small_vector<T, %d, A>&, '
@@ -53,6 +57,8 @@ class Cfg(object):
 
     def flags(self):
         fl = ['-std=' + self.std, '-I', common.INCLUDE, '-I', os.path.join(common.VERIF, 'probes')]
+        if self.canary:
+            fl += ['-I', os.path.join(common.VERIF, 'canaries'), '-fno-access-control']
         if self.ndebug:
             fl.append('-DNDEBUG')
         else:
